@@ -2902,7 +2902,7 @@ func lemmaForwardSession(raw *rawEnvelope) (e *Session, e3 *Session, accepted bo
 //@ func (*tcpTransport).SupportedEncryption :: (t) (result)
 //@   props C09 C10
 //@   modifies nothing
-//@   ensures [C09] fresh(result) && len(result) == 2 && result[0] == SessionEncryptionNone && result[1] == SessionEncryptionTLS
+//@   ensures [C09,C10] @offerstls fresh(result) && len(result) == 2 && result[0] == SessionEncryptionNone && result[1] == SessionEncryptionTLS  ## a TCP connection can always be upgraded (SetEncryption): hiding the option makes a TLS-only server skip the negotiation (C10)
 
 // SetEncryption against the Transport model (t.enc is t.encryption, t.connected is
 // t.conn != nil && !t.eof): the option reported in force is the one asked for.
